@@ -48,7 +48,7 @@ void cfg_desc(const wcfg_t *c, char *out, size_t n)
 {
     snprintf(out, n, "%s%s%s/%s/%04x%s%s%s%s", ver_name(c->ver), c->cver ? "+c" : "", c->cver ? ver_name(c->cver) : "",
         kx_name(c->kx), c->suite, c->client_auth ? "/cauth" : "", c->early_data == 2 ? (c->early_send ? "/early-off-at-server+0rtt" : "/early-off-at-server") : c->early_data ? (c->early_send ? "/early+0rtt" : "/early") : "",
-        c->resume13 ? "/tick+resumed" : c->tickets ? "/tick" : "", c->bad_server_cert ? "/badcert" : c->bogus_psk ? "/unknown-psk-offered" : "");
+        c->resume13 ? "/tick+resumed" : c->tickets == 2 ? "/tick-asked-only" : c->tickets ? "/tick" : "", c->bad_server_cert ? "/badcert" : c->bogus_psk ? "/unknown-psk-offered" : "");
 }
 
 static uint16_t default_suite(int ver, int kx)
@@ -233,7 +233,7 @@ static int load_side_keys(world_t *w, int side)
             return rc;
         }
     }
-    if (side == 1 && c->tickets)
+    if (side == 1 && c->tickets == 1)    /* tickets == 2: the client asks for a ticket, the server has no ticket keys */
     {
         static const unsigned char name[16] = "mxv-ticket-key-1";
         static const unsigned char sk[32] = { 1, 2, 3, 4, 5, 6, 7, 8, 9, 10, 11, 12, 13, 14, 15, 16, 17, 18, 19, 20, 21, 22, 23, 24, 25, 26, 27, 28, 29, 30, 31, 32 };
